@@ -27,7 +27,8 @@ EXTENDS Integers, Sequences, FiniteSets, TLC, Json
 
 CONSTANTS MaxRows,    \* tables with 0..MaxRows rows are validated (clean, and in the legal presentations)
           MaxDefRows, \* every single illegal deviation is applied to the tables with at most MaxDefRows rows
-          MaxQRows    \* accepted tables with at most MaxQRows rows are also queried
+          MaxQRows,   \* accepted tables with at most MaxQRows rows are also queried
+          QSampleMod  \* ... and of the larger accepted tables those whose row code is 0 modulo QSampleMod (0 = none)
 
 Legal == {"0", "1"}
 BadTokens == {"2", "-1", "nan", "str1"}
@@ -149,8 +150,14 @@ ChkZero == Step("chk_zero", \A i \in 1..N(table) : Val(table.rows[i][1]) + Val(t
 
 \* ---------------------------------------------------------------- get_eligible_assignments
 \* lines 176-183: df.loc[geos] keeps the given order; reset_index() relabels the rows 0..n-1
+\* a code of the 0/1 content of a table (used only to sample larger tables for the query part)
+RowCode(tb) == LET RECURSIVE RC(_) RC(i) == IF i = 0 THEN 0 ELSE
+                     RC(i - 1) * 8 + (IF tb.rows[i][1] = "1" THEN 4 ELSE 0) + (IF tb.rows[i][2] = "1" THEN 2 ELSE 0) +
+                     (IF tb.rows[i][3] = "1" THEN 1 ELSE 0)
+               IN RC(N(tb))
+Queried(tb) == N(tb) <= MaxQRows \/ (QSampleMod > 0 /\ RowCode(tb) % QSampleMod = 0)
 Select ==
-  /\ pc = "accepted" /\ N(table) <= MaxQRows
+  /\ pc = "accepted" /\ Queried(table)
   /\ \E qq \in Queries(N(table)) :
        /\ q' = qq
        /\ IF qq.given
